@@ -565,7 +565,7 @@ func streamRest(e *Emitter, rng *rand.Rand, tier string) {
 		op.EPath = hs(path)
 		q := []string{}
 		for k := rng.IntN(4); k > 0; k-- {
-			key := pick(rng, []string{"name", "n", "tags", "inner.id", "inner.nums", "inner.deep.leaf", "book_id", "bookId", "flag", "big", "inner", "inners", "nosuch", "inner.nosuch", "name.x", "tags.x", "Inner.id", ""})
+			key := pick(rng, []string{"name", "n", "tags", "inner.id", "inner.nums", "inner.deep.leaf", "book_id", "bookId", "flag", "big", "inner", "inners", "nosuch", "inner.nosuch", "name.x", "tags.x", "Inner.id", "", "name.", "inner.", "inner..id", ".name", "inner.id.", "tags.", "."})
 			val := pick(rng, []string{"v", "a%20b", "a+b", "%2F", "12", "-3", "007", "1e3", "2147483648", "null", "true", "TRUE", "1", "", "%zz", "aGVsbG8", "aGVsbG8=", "1.0", " 5", "\"q\""})
 			q = append(q, key+"="+val)
 		}
